@@ -16,6 +16,26 @@ open Sb Sb.Poly Sb.Traj Sb.Spec Sb.Proofs
 theorem constants : Gen.msecPerSec = 1000 ∧ Gen.angleModulus = 3600 ∧ Gen.angleDivisor = 10 ∧
     Gen.maxPolyCoeffs = 8 ∧ Gen.facs = [1, 1, 2, 6, 24, 120, 720, 5040] := by decide
 
+/-- the segment-format flags of the public header (`sb_trajectory_segment_format_flags_t`, regenerated on every run) -/
+theorem segment_formats_match_format :
+    Gen.segmentFormats = [("SB_X_CONSTANT", 0), ("SB_X_LINEAR", 1), ("SB_X_BEZIER", 2), ("SB_X_POLY7D", 3),
+      ("SB_Y_CONSTANT", 0), ("SB_Y_LINEAR", 4), ("SB_Y_BEZIER", 8), ("SB_Y_POLY7D", 12),
+      ("SB_Z_CONSTANT", 0), ("SB_Z_LINEAR", 16), ("SB_Z_BEZIER", 32), ("SB_Z_POLY7D", 48),
+      ("SB_YAW_CONSTANT", 0), ("SB_YAW_LINEAR", 64), ("SB_YAW_BEZIER", 128), ("SB_YAW_POLY7D", 192)] := by decide
+
+/-- the model's decoding of a segment header reads exactly these fields: for every combination of one X, one Y, one Z
+and one yaw flag of the header, the header byte fits in eight bits and the numbers of control points the model takes
+per axis are 1 / 2 / 4 / 8 for CONSTANT / LINEAR / BEZIER / POLY7D (all 256 header bytes, kernel evaluation) -/
+theorem numCoords_of_flags :
+    ∀ x ∈ [(Gen.SB_X_CONSTANT, 1), (Gen.SB_X_LINEAR, 2), (Gen.SB_X_BEZIER, 4), (Gen.SB_X_POLY7D, 8)],
+    ∀ y ∈ [(Gen.SB_Y_CONSTANT, 1), (Gen.SB_Y_LINEAR, 2), (Gen.SB_Y_BEZIER, 4), (Gen.SB_Y_POLY7D, 8)],
+    ∀ z ∈ [(Gen.SB_Z_CONSTANT, 1), (Gen.SB_Z_LINEAR, 2), (Gen.SB_Z_BEZIER, 4), (Gen.SB_Z_POLY7D, 8)],
+    ∀ w ∈ [(Gen.SB_YAW_CONSTANT, 1), (Gen.SB_YAW_LINEAR, 2), (Gen.SB_YAW_BEZIER, 4), (Gen.SB_YAW_POLY7D, 8)],
+      (x.1 ||| y.1 ||| z.1 ||| w.1) < 256 ∧
+      numCoords (x.1 ||| y.1 ||| z.1 ||| w.1) = x.2 ∧ numCoords ((x.1 ||| y.1 ||| z.1 ||| w.1) >>> 2) = y.2 ∧
+      numCoords ((x.1 ||| y.1 ||| z.1 ||| w.1) >>> 4) = z.2 ∧ numCoords ((x.1 ||| y.1 ||| z.1 ||| w.1) >>> 6) = w.2 := by
+  decide +kernel
+
 /-- `sb_poly_make_bezier` followed by `sb_poly_eval` is the Bernstein-form Bézier curve, for every
 number of control points from 1 to 8 (the format uses 1, 2, 4 and 8) -/
 theorem makeBezier_eq_bernstein (c : List Rat) (u : Rat) (h1 : 1 ≤ c.length) (h8 : c.length ≤ 8) :
